@@ -3,6 +3,7 @@ import fcntl
 import hashlib
 import json
 import os
+import re
 import shutil
 import signal
 import subprocess
@@ -381,20 +382,22 @@ def asan_pass(o, exe, sub, args, timeout, key):
     o.extra["asan"] = "no AddressSanitizer report on %d evaluations" % rep.get("evaluations", 0)
 
 
-def miri_pass(o, sub, args, shards, secs, key, features=()):
-    """Run `shards` single-threaded Miri processes of the monitored binary in parallel, each under a time budget."""
+def miri_pass(o, sub, args, shards, secs, key, features=(), target=None, prefix="miri_"):
+    """Run `shards` single-threaded Miri processes of the monitored binary in parallel, each under a time budget.
+    With `target` the program is interpreted for another platform (e.g. a big-endian one): Miri needs no emulator for that."""
     env = base_env()
     env["CARGO_TARGET_DIR"] = os.path.join(TARGET, "miri")
     env["MIRIFLAGS"] = "-Zmiri-disable-isolation"
     os.makedirs(os.path.join(WORK, "out"), exist_ok=True)
     base = ["cargo", "+nightly", "miri", "run", "--offline", "-q", "-p", "rt"]
+    if target:
+        base += ["--target", target]
     if features:
         base += ["--features", ",".join(features)]
     # first shard alone builds; the others reuse the artefacts
     procs = []
     with Lock("miri"):
-        pre = subprocess.run(["cargo", "+nightly", "miri", "run", "--offline", "-q", "-p", "rt"] + (["--features", ",".join(features)] if features else []) + ["--", "noop"],
-                             cwd=HARNESS, env=env, stdout=subprocess.PIPE, stderr=subprocess.PIPE, text=True)
+        pre = subprocess.run(base + ["--", "noop"], cwd=HARNESS, env=env, stdout=subprocess.PIPE, stderr=subprocess.PIPE, text=True)
         if "unknown subcommand" not in pre.stderr:
             o.inconclusive.append("Miri build of the harness failed: %s" % pre.stderr[-600:])
             return
@@ -425,10 +428,11 @@ def miri_pass(o, sub, args, shards, secs, key, features=()):
             hs = rep.pop("distinct_hashes", [])
             hashes.update(hs)
             rep["distinct_nontrivial"] = 0
-            o.add_report(rep, "miri_")
+            o.add_report(rep, prefix)
             total += rep.get("evaluations", 0)
         o.distinct += len(hashes)
-        o.extra["miri"] = "no undefined behaviour reported on %d evaluations in %d single-threaded processes (Stacked Borrows, isolation disabled)" % (total, shards)
+        o.extra[prefix.rstrip("_")] = "no undefined behaviour reported on %d evaluations in %d single-threaded processes (Stacked Borrows, isolation disabled%s)" % (
+            total, shards, (", interpreted for target %s" % target) if target else "")
 
 
 def p_decode(o):
@@ -537,10 +541,15 @@ def p_pairs(o):
     rt_pass(o, exe, "pairs", [], timeout=sizes(o.tier, 400, 1800))
     # optimised build: functions with identical bodies may be merged, debug assertions are off
     nodebug_pass(o, build_rtc(o, profile="nodebug"), "pairs", [], timeout=sizes(o.tier, 400, 1800))
+    # with the docs feature definitions carry more (doc strings): coherence within an identity class must hold there too
+    rt_pass(o, build_rtc(o, ("docs",)), "pairs", [], timeout=sizes(o.tier, 400, 1800), prefix="docs_on_", name="C16-pairs-docs")
+    o.need(["same_identity_pairs", "alias_order_pairs_checked"], "docs_on_")
     o.rule = ("all ordered pairs of corpus entries (built-in constructors at nesting <=4, wrappers of wrappers, aliases, hand-written and derived types): ==, !=, cmp both ways, partial_cmp, hash; "
               "declared identity taken from the trait (TypeId::of::<<T as TypeInfo>::Identity>()), not from MetaType; coherence of definitions and of registration order within each identity class; "
-              "transitivity over all triples of a 150-entry subset. Non-trivial: a != b as corpus entries; distinct = distinct ordered pairs.")
-    o.need(["same_identity_pairs", "different_identity_pairs", "alias_order_pairs_checked", "transitivity_triples", "identity_classes_with_aliases"])
+              "transitivity over all triples of a 150-entry subset, over 2M random triples of the whole corpus, and as absence of inversions at any distance after sorting the corpus; "
+              "BTreeSet / HashSet of the corpus keep one member per identity. Three builds: dev, optimised without debug assertions, dev with the docs feature. "
+              "Non-trivial: a != b as corpus entries; distinct = distinct ordered pairs.")
+    o.need(["same_identity_pairs", "different_identity_pairs", "alias_order_pairs_checked", "transitivity_triples", "identity_classes_with_aliases", "sorted_pairs_checked", "collections_checked"])
     o.assumptions = ["std TypeId equality is type identity", "DefaultHasher is used as the witness for Hash consistency"]
 
 
@@ -882,6 +891,8 @@ def p_features(o):
             for line in r.stdout.splitlines():
                 name = line.split(" ", 1)[0]
                 fpv[name] = line.rsplit("bytes=", 1)[1]
+                if name.endswith("_builder_twins"):
+                    fpv["_raw_" + name] = line
             results[fs] = ("ok", fpv)
 
     import threading
@@ -933,6 +944,22 @@ def p_features(o):
     for fs in ok:
         if ok[fs].get("base_again") != ok[fs].get("base"):
             o.violations.append({"key": "C15/second-registry-differs", "msg": "with features {%s} a second registry built from the same roots on the same thread has different bytes" % ",".join(fs), "case": {"features": list(fs)}})
+            o.violation_count += 1
+    compare("base_builder_twins", list(ok), "run-time builder fed every definition and a copy differing in one doc line (docs stripped first)")
+    compare("small", list(ok), "registry of the first 60 roots, docs stripped")
+    for fs in ok:
+        v = ok[fs]
+        for part in ("small_while_unwinding", "small_after_unwinding"):
+            o.evaluations += 1
+            if v.get(part) != v.get("small"):
+                o.violations.append({"key": "C15/feature-changes-bytes", "msg": "with features {%s} the registry of the same roots built %s differs from the one built before (%s vs %s): under other feature sets they are the same" % (
+                    ",".join(fs), "inside a destructor while the thread unwinds" if "while" in part else "after a caught panic", v.get(part), v.get("small")), "case": {"features": list(fs), "part": part}})
+                o.violation_count += 1
+        line = v.get("_raw_base_builder_twins", "")
+        m = re.search(r"entries=(\d+) expected=(\d+)", line)
+        if m and m.group(1) != m.group(2):
+            o.violations.append({"key": "C15/feature-changes-bytes", "msg": "with features {%s} a PortableRegistryBuilder fed %s definitions that differ pairwise (some only in a doc line given as data) holds %s entries" % (",".join(fs), m.group(2), m.group(1)),
+                                 "case": {"features": list(fs), "part": "base_builder_twins"}})
             o.violation_count += 1
     bv = [fs for fs in ok if "bit-vec" in fs]
     compare("bitvec", [fs for fs in bv if "docs" not in fs], "BitVec corpus, docs off")
@@ -1022,6 +1049,11 @@ def p_codec(o):
     o.replay_base = {"sub": "codec"}
     rt_pass(o, exe, "codec", ["--cases", cases, "--max-secs", sizes(o.tier, 60, 420)], timeout=sizes(o.tier, 300, 1500))
     nodebug_pass(o, build_rt(profile="nodebug"), "codec", ["--cases", sizes(o.tier, 30_000, 1_000_000), "--max-secs", sizes(o.tier, 30, 120), "--first", 7_000_000], timeout=sizes(o.tier, 300, 900))
+    if o.prop == "C06" or o.tier == "thorough":
+        # the layout is little endian on every platform: the same monitors, interpreted by Miri for a big-endian target
+        miri_pass(o, "codec", ["--cases", 100_000, "--light", 1], shards=sizes(o.tier, 8, NCPU), secs=sizes(o.tier, 20, 150), key="%s/miri-ub" % o.prop,
+                  target="s390x-unknown-linux-gnu", prefix="miri_be_")
+        o.need(["cases_run", "def_array", "def_variant"], "miri_be_")
     o.rule = ("RegGen registries (seeded; well-formed and arbitrary modes; every definition kind; ids from all four compact size classes; "
               "hostile unicode strings; vector lengths across 63/64 and, thorough, 16383/16384). A case is non-trivial when the registry has >=1 entry; "
               "distinct = distinct reference encodings (content hash).")
@@ -1206,4 +1238,9 @@ def setup():
     except Inconclusive as e:
         log(str(e))
         return 1
+    # Miri sysroot for the big-endian pass of C06 (built on first use otherwise)
+    try:
+        subprocess.run(["cargo", "+nightly", "miri", "setup", "--target", "s390x-unknown-linux-gnu"], cwd=HARNESS, env=base_env(), stdout=subprocess.PIPE, stderr=subprocess.PIPE, timeout=900)
+    except Exception as e:
+        log("miri setup for s390x skipped: %s" % e)
     return 0
